@@ -989,12 +989,14 @@ pub fn run_c14(tier: Tier) -> i32 {
     }
     for f in list.iter() {
         let t0 = Instant::now();
-        let n = for_family(f.as_ref(), &|p| visit(&ctx, p));
-        fams.push(json!({"family": f.name(), "legal_members": n, "secs": t0.elapsed().as_secs_f64()}));
+        // quick runs: every other index of the 3-piece families (all of them in thorough runs)
+        let sf = Strided(f.as_ref(), if tier == Tier::Quick { 2 } else { 1 });
+        let n = for_family(&sf, &|p| visit(&ctx, p));
+        fams.push(json!({"family": sf.name(), "legal_members": n, "secs": t0.elapsed().as_secs_f64()}));
     }
     let like: &[&str] = if tier == Tier::Quick { &["KNNk", "KRRk", "KQQk", "KBBk"] } else { &["KNNk", "KRRk", "KQQk", "KBBk", "Kknn", "Kkrr", "KPPk", "KQkq", "KRkn"] };
     // two like pieces: all placements in thorough runs, a co-prime sub-lattice in quick runs
-    let like_stride: u64 = if tier == Tier::Quick { 61 } else { 5 };
+    let like_stride: u64 = if tier == Tier::Quick { 97 } else { 5 };
     for sig in like {
         let t0 = Instant::now();
         let fam = Material::new(sig);
@@ -1028,10 +1030,10 @@ pub fn run_c14(tier: Tier) -> i32 {
         let fam = Like3 { kind };
         // co-prime strides giving a few 10^5 members per kind in quick runs
         let stride: u64 = match (tier, kind) {
-            (Tier::Quick, KNIGHT) => 10_007,
-            (Tier::Quick, BISHOP) => 50_021,
-            (Tier::Quick, ROOK) => 150_001,
-            (Tier::Quick, _) => 900_001,
+            (Tier::Quick, KNIGHT) => 15_013,
+            (Tier::Quick, BISHOP) => 75_011,
+            (Tier::Quick, ROOK) => 225_023,
+            (Tier::Quick, _) => 1_350_007,
             (Tier::Thorough, KNIGHT) => 499,
             (Tier::Thorough, BISHOP) => 2_503,
             (Tier::Thorough, ROOK) => 3_001,
@@ -1046,7 +1048,7 @@ pub fn run_c14(tier: Tier) -> i32 {
     {
         let t0 = Instant::now();
         let fam = PushChk;
-        let stride: u64 = if tier == Tier::Quick { 401 } else { 7 };
+        let stride: u64 = if tier == Tier::Quick { 601 } else { 7 };
         let sf = Strided(&fam, stride);
         let n = for_family(&sf, &|p| visit(&ctx, p));
         let n2 = for_family(&Flipped(&sf), &|p| visit(&ctx, p));
@@ -1056,7 +1058,7 @@ pub fn run_c14(tier: Tier) -> i32 {
     {
         let t0 = Instant::now();
         let fam = Material::new("KQQQk");
-        let stride: u64 = if tier == Tier::Quick { 1009 } else { 53 };
+        let stride: u64 = if tier == Tier::Quick { 2003 } else { 53 };
         let count = AtomicU64::new(0);
         par_for(fam.len() / stride, 256, |i| {
             if let Some(p) = fam.decode(i * stride) {
